@@ -2,14 +2,14 @@ SPECIFICATION Spec
 CONSTANTS
   Versions <- VersionsPairs
   FullVersions <- VersionsPairs
-  Families <- FamBoth
-  Kinds <- KindsExtra
-  ChunkSize = 6
-  MaxHist = 1
+  Families <- FamPdu
+  Kinds <- KindsRoute
+  ChunkSize = 1
+  MaxHist = 0
   FullOffsets <- OffNone
   LiteOffsets <- OffNone
   AllOnlyOffsets <- OffNone
-  RouteSteps = 0
-  RouteFull = FALSE
+  RouteSteps = 3
+  RouteFull = TRUE
 INVARIANTS TypeOK PExact PIdempotent PHistory PCore PIdentity PRoute PModule PSanity Emit
 CHECK_DEADLOCK FALSE
